@@ -350,12 +350,26 @@ func opC12Cells(raw json.RawMessage, o *Out) {
 		}
 		c12LongEdges(o, cls, desc, cell, append(append([]s2.Point(nil), samples...), cell.Center()))
 		targets := append(append([]s2.Point(nil), e.probePt...), far...)
+		// exact antipodes of the cell's own centre and vertices: every distance is (almost) the largest possible one
+		targets = append(targets, s2.Point{Vector: cell.Center().Mul(-1)}, s2.Point{Vector: cell.ID().Point().Mul(-1)})
+		for k := 0; k < 4; k++ {
+			targets = append(targets, s2.Point{Vector: cell.Vertex(k).Mul(-1)})
+		}
 		for ti, t := range targets {
 			d := cell.Distance(t)
 			bd := cell.BoundaryDistance(t)
 			md := cell.MaxDistance(t)
 			o.Count("target_evals")
 			td := fmt.Sprintf("target #%d (%.17g,%.17g,%.17g)", ti, t.X, t.Y, t.Z)
+			// a distance between points of the sphere is a chord angle in [0, 4] (squared chord), never NaN
+			for _, x := range []struct {
+				n string
+				v s1.ChordAngle
+			}{{"Distance", d}, {"BoundaryDistance", bd}, {"MaxDistance", md}} {
+				if !(x.v >= 0 && x.v <= s1.StraightChordAngle) {
+					o.Fail("cell/"+x.n+"/range/"+cls, "%s = %.17g is not a chord angle in [0, 4] for %s: %s", x.n, float64(x.v), td, desc)
+				}
+			}
 			if d > bd {
 				o.Fail("cell/Distance-le-BoundaryDistance/"+cls, "Distance = %g > BoundaryDistance = %g for %s: %s", float64(d), float64(bd), td, desc)
 			}
